@@ -111,12 +111,101 @@ def trace_binding(work):
     return out
 
 
+def e2e_binding(work):
+    """For each system-level monitor: a recorded real trace is accepted; with one field corrupted or one
+    event removed it is flagged."""
+    out = []
+    e2e = os.path.join(BIN, "e2e")
+
+    def record(sub, cases, extra=None):
+        cf = work.path("st-%s-cases.jsonl" % sub)
+        with open(cf, "w") as f:
+            for c in cases:
+                f.write(json.dumps(c) + "\n")
+        tr = work.path("st-%s.ndjson" % sub)
+        sh([e2e, sub, "--cases", cf, "--out", tr] + (extra or []), timeout=900)
+        return [json.loads(x) for x in open(tr).read().split("\n") if x]
+
+    def verdicts(mod, evs, tag):
+        p = work.path("st-%s.ndjson" % tag)
+        with open(p, "w") as f:
+            f.write("\n".join(json.dumps(e) for e in evs) + "\n")
+        r = tlc(mod, mod + ".cfg", work, workers=1, trace=p, timeout=600)
+        return {"accepted_fully": r.ok, "flags": [v["kind"] for v in r.viol], "notes": [n["what"] for n in r.notes]}
+
+    def change_first(evs, pred, fn):
+        res, done = [], False
+        for e in evs:
+            e = dict(e)
+            if not done and pred(e):
+                done = True
+                e = fn(e)
+                if e is None:
+                    continue
+            res.append(e)
+        return res
+
+    # RequestorLife
+    sched = {"id": "st", "steps": [{"op": "open", "f": 1, "c": "", "k": 0}, {"op": "req", "f": 1, "c": "a", "k": 1},
+                                   {"op": "req", "f": 1, "c": "b", "k": 2}, {"op": "answer", "f": 0, "c": "", "k": 2},
+                                   {"op": "answer", "f": 0, "c": "", "k": 1}]}
+    evs = record("reqlife", [sched], ["--par", "1"])
+    tests = [("RequestorLife: unmodified trace", "Trace_RequestorLife", evs, "accept"),
+             ("RequestorLife: one call's returned value replaced by another call's", "Trace_RequestorLife",
+              change_first(evs, lambda e: e["ev"] == "call_ret" and e["k"] == 1, lambda e: dict(e, val=2)), "flag"),
+             ("RequestorLife: an answered call reported as timed out", "Trace_RequestorLife",
+              change_first(evs, lambda e: e["ev"] == "call_ret" and e["k"] == 2, lambda e: dict(e, res="timeout", val=0)), "flag"),
+             ("RequestorLife: the answer step removed from the trace", "Trace_RequestorLife",
+              change_first(evs, lambda e: e["ev"] == "op" and e["op"] == "answer" and e["k"] == 1, lambda e: None), "note_or_flag")]
+    # ReplierLife
+    sched = {"id": "st", "steps": [{"op": "start", "r": 1}, {"op": "start", "r": 2}, {"op": "request", "r": 0}, {"op": "stop", "r": 1}, {"op": "request", "r": 0}]}
+    evs = record("replife", [sched], ["--par", "1"])
+    tests += [("ReplierLife: unmodified trace", "Trace_ReplierLife", evs, "accept"),
+              ("ReplierLife: an answer attributed to the standby while the first replier is bound", "Trace_ReplierLife",
+               change_first(evs, lambda e: e["ev"] == "result" and e["by"] == 1, lambda e: dict(e, by=2)), "flag"),
+              ("ReplierLife: no answer after the bound replier left although a standby listens", "Trace_ReplierLife",
+               [dict(e, by=0) if (e["ev"] == "result" and e["by"] == 2) else e for e in evs], "flag")]
+    # PubSubLife
+    sched = {"id": "st", "origins": 2, "steps": [{"op": "open_sub", "id": 1}, {"op": "open_pub", "id": 1}, {"op": "publish", "id": 1},
+                                                  {"op": "cut_sub", "id": 1}, {"op": "publish", "id": 1}, {"op": "finish", "id": 1}]}
+    evs = record("publife", [sched], ["--par", "1"])
+    tests += [("PubSubLife: unmodified trace", "Trace_PubSubLife", evs, "accept"),
+              ("PubSubLife: one delivery removed", "Trace_PubSubLife",
+               change_first(evs, lambda e: e["ev"] == "recv" and e["n"] == 2, lambda e: None), "flag"),
+              ("PubSubLife: one delivery duplicated", "Trace_PubSubLife",
+               [x for e in evs for x in ([e, e] if (e["ev"] == "recv" and e["n"] == 1) else [e])], "flag"),
+              ("PubSubLife: the subscriber reported as not recovered", "Trace_PubSubLife",
+               change_first(evs, lambda e: e["ev"] == "op" and e.get("op") == "cut_sub", lambda e: dict(e, recovered=False)), "flag")]
+    # ServerLife (real interrupt signal)
+    case = {"topics": [{"kind": "pubsub", "subs": 1, "pubs": 1, "traffic": "finished", "stall": False, "big": False, "replier": False, "requestors": 0}],
+            "leaver": False, "late_regs": 0, "settle_ms": 0}
+    evs = record("shutdown", [case])
+    tests += [("ServerLife: unmodified trace", "Trace_ServerLife", evs, "accept"),
+              ("ServerLife: the 'channels closed' hook event removed", "Trace_ServerLife",
+               change_first(evs, lambda e: e["ev"] == "sd_channels_closed", lambda e: None), "flag"),
+              ("ServerLife: listen() reported as hung", "Trace_ServerLife",
+               change_first(evs, lambda e: e["ev"] == "listen_returned", lambda e: {"ev": "listen_hung", "after_ms": 30000, "stalled": False, "run": 0, "seq": e["seq"]}), "flag")]
+    # Fanout
+    sched = {"id": "st", "steps": [{"op": "reg_sub", "id": 1}, {"op": "reg_pub", "id": 1}, {"op": "publish", "id": 1}, {"op": "publish", "id": 1}, {"op": "end", "id": 1}]}
+    evs = record("fanout", [sched], ["--par", "1"])
+    tests += [("Fanout: unmodified trace", "Trace_Fanout", evs, "accept"),
+              ("Fanout: one delivery removed", "Trace_Fanout",
+               change_first(evs, lambda e: e["ev"] == "sub_item" and e["pub"] == 1 and e["n"] == 1, lambda e: None), "flag")]
+    for i, (name, mod, ev2, expect) in enumerate(tests):
+        r = verdicts(mod, ev2, "b%d" % i)
+        ok = (expect == "accept" and not r["flags"] and not r["notes"]) or (expect == "flag" and r["flags"]) or \
+             (expect == "note_or_flag" and (r["flags"] or r["notes"]))
+        out.append({"case": name, "expected": expect, "result": r, "as_expected": bool(ok)})
+        log("[selftest] %-80s -> %s %s" % (name, "OK" if ok else "UNEXPECTED", r["flags"] or r["notes"]))
+    return out
+
+
 def run():
     build_harness()
     work = Work("selftest")
     try:
         dev = deviations(work)
-        tb = trace_binding(work)
+        tb = trace_binding(work) + e2e_binding(work)
     finally:
         work.cleanup()
     res = {"deviation_constants": dev, "trace_binding": tb}
